@@ -29,6 +29,7 @@ func init() {
 			"operand forms (call, accessor, call+accessor, variable) x operators for evaluation order, exponent x mantissa sweep for ToInt32/ToUint32/ToUint16, " +
 			"operator composition op2(op1(x)) and op2(op1(x), op1'(y)) over every result-kind-producing operation (bitwise, >>>, charCodeAt, lengths, indexOf, Date getters, parseInt, Math, arithmetic) at boundary inputs, " +
 			"ToString(Number) kind twins: V numbers and a 2^k / 10^k neighbour lattice x argument forms (injected float64, exponent literal, integer literal, text) x computations (a*1, -(-a), a-0, a/1, +a, Number, parseFloat) x 11 ToString contexts. " +
+			"ToNumber(String): every single and double insertion of + - space _ . e x 0 (thorough: 16 characters) at every position of each StringNumericLiteral form x 8 ToNumber contexts. " +
 			"Each case compares result (IEEE class / exact bits, string, boolean, object identity), thrown class and the coercion log with the model. " +
 			"A case is trivial when the model throws a TypeError before any coercion (e.g. `x in 1`); everything else is non-trivial.",
 		Families: []engine.Family{
@@ -40,6 +41,7 @@ func init() {
 			{Name: "order", Run: runOrder},
 			{Name: "compose", Run: runCompose},
 			{Name: "tostring", Run: runToString},
+			{Name: "strnum", Run: runStrNum},
 			{Name: "intsweep", Run: runIntSweep},
 			{Name: "arith", Run: runArith},
 			{Name: "compound", Run: runCompound, ThoroughOnly: true},
